@@ -9,9 +9,10 @@ from ..core import Corr, Violation
 
 ID = "C14"
 LEVEL = "proof"
-COQ_FILES = ["Props/C14_props.v"]
+COQ_FILES = ["Tie/C14_tie.v", "Props/C14_props.v"]
 PROPS_FILES = ["C14_props.v"]
 TRUSTED_BASE = [
+    "py2gallina unit 'recon-loop': the body of the batch loop of MRIModelEngine.reconstruct_volumes is regenerated on every run as a statement list over its four state variables (guards on last_filename / curr_volume / slice_counter == volume_size, slice assignment into the volume buffer, the yield); statements that compute the per-batch output are abstracted to 'outs', anything else fails closed; coq/Proofs/C14_skel.v proves that this statement list refines the state machine below",
     "hand-written model coq/Model/C14.v of the bookkeeping of MRIModelEngine.reconstruct_volumes (last_filename / curr_volume / slice_counter / volume_size), tied by exact correspondence through the real Engine.predict -> reconstruct_volumes with a marker model (vlib/props/c14.py)",
     "torch DataLoader yields the batch sampler's batches in order for any worker count (validated for 0-2 workers); default collate",
     "_process_output acts per slice (validated: per-slice scaling factors 2^k, crop from C10)",
@@ -19,6 +20,94 @@ TRUSTED_BASE = [
 ]
 ASSUMPTIONS = ["volume names pairwise distinct (NoDup: they are dictionary keys)", "every volume has at least one slice"]
 RULE = "(layout, batch size, world, rank, workers, crop) runs of Engine.predict with a marker model; non-trivial = >= 2 volumes and some volume spanning several batches; distinct by configuration"
+
+LOOP_SRC = "direct/nn/mri_models.py"
+# statements of the loop body that do not touch the four state variables (they compute the batch output or log)
+PURE_TARGETS = {"filename", "scaling_factors", "resolution", "iteration_output", "output", "loss_dict", "output_abs", "target_abs"}
+
+
+def _loop_stmt(s, path):
+    import ast
+
+    from ..core import Untranslatable
+
+    u = ast.unparse(s)
+
+    def fail(why):
+        raise Untranslatable("recon-loop: %s: %s" % (why, u[:80]), getattr(s, "lineno", None), path)
+
+    if isinstance(s, ast.Expr) and isinstance(s.value, ast.Call):
+        fn = ast.unparse(s.value.func)
+        if fn in ("torch.cuda.empty_cache", "gc.collect", "self.logger.info", "loss_dict_list.append"):
+            return []
+        fail("call outside subset")
+    if isinstance(s, ast.Expr) and isinstance(s.value, ast.Yield):
+        y = ast.unparse(s.value.value)
+        if not y.startswith("(curr_volume, curr_target, reduce_list_of_dicts(loss_dict_list), filename) if add_target else (curr_volume, reduce_list_of_dicts(loss_dict_list), filename)"):
+            fail("yield of something else than the current volume and file name")
+        return ["SYield"]
+    if isinstance(s, ast.Delete):
+        if u != "del data":
+            fail("del outside subset")
+        return []
+    if isinstance(s, ast.AugAssign):
+        if u == "slice_counter += output_abs.shape[0]":
+            return ["SAddCounter"]
+        if u == "filenames_seen += 1":
+            return []
+        fail("augmented assignment outside subset")
+    if isinstance(s, ast.Assign):
+        t = ast.unparse(s.targets[0])
+        v = ast.unparse(s.value)
+        if t in PURE_TARGETS:
+            for n in ast.walk(s.value):
+                if isinstance(n, ast.Name) and n.id in ("curr_volume", "curr_target", "slice_counter", "volume_size", "last_filename"):
+                    fail("batch output depends on the loop state")
+            return []
+        table = {("last_filename", "filename"): ["SSetLastFile"], ("curr_volume", "None"): ["SResetVolume"], ("curr_target", "None"): [], ("slice_counter", "0"): ["SResetCounter"],
+                 ("volume_size", "len(data_loader.batch_sampler.sampler.volume_indices[filename])"): ["SSetVsz"],
+                 ("curr_volume", "torch.zeros(*(volume_size, *output_abs.shape[1:]), dtype=output_abs.dtype)"): ["SAllocBuf"],
+                 ("curr_target", "curr_volume.clone()"): [],
+                 ("curr_volume[slice_counter:slice_counter + output_abs.shape[0], ...]", "output_abs.cpu()"): ["SWriteSlice"],
+                 ("curr_target[slice_counter:slice_counter + output_abs.shape[0], ...]", "target_abs.cpu()"): []}
+        if (t, v) in table:
+            return table[(t, v)]
+        fail("assignment outside subset")
+    if isinstance(s, ast.If) and not s.orelse:
+        c = ast.unparse(s.test)
+        conds = {"last_filename is None": "CLastIsNone", "last_filename != filename": "CLastNeqFile", "curr_volume is None": "CBufIsNone", "slice_counter == volume_size": "CCounterEqVsz"}
+        body = [x for st in s.body for x in _loop_stmt(st, path)]
+        if c == "add_target":
+            if body:
+                fail("the target branch changes the loop state")
+            return []
+        if c not in conds:
+            fail("guard outside subset")
+        return ["SIf %s [%s]" % (conds[c], "; ".join(body))]
+    fail("statement outside subset")
+
+
+def generate(ctx):
+    import ast
+
+    from .. import py2gallina as pg
+    from ..core import Untranslatable
+
+    path = ctx.src(LOOP_SRC)
+    tree, _ = pg.parse_file(path)
+    fn = pg.find_def(tree, "MRIModelEngine.reconstruct_volumes", path)
+    loops = [n for n in pg.strip_doc(fn.body) if isinstance(n, ast.For)]
+    if len(loops) != 1 or ast.unparse(loops[0].iter) != "enumerate(data_loader)" or ast.unparse(loops[0].target) != "(_, data)":
+        raise Untranslatable("recon-loop: expected one loop over enumerate(data_loader)", fn.lineno, path)
+    # initial state
+    pre = {ast.unparse(s.targets[0]): ast.unparse(s.value) for s in pg.strip_doc(fn.body) if isinstance(s, ast.Assign)}
+    for k, v in (("last_filename", "None"), ("curr_volume", "None"), ("slice_counter", "0")):
+        if pre.get(k) != v:
+            raise Untranslatable("recon-loop: initial value of %s is not %s" % (k, v), fn.lineno, path)
+    stmts = [x for st in loops[0].body for x in _loop_stmt(st, path)]
+    out = "From DV Require Import Model.C14_skel.\nDefinition gen_body : list sstmt :=\n  [%s].\n" % ";\n   ".join(stmts)
+    return [pg.write_gen(ctx, "C14_gen", out)]
+
 
 PRE = "From DV Require Import Base.Tactics Model.C14.\nOpen Scope nat_scope.\n"
 
